@@ -30,7 +30,7 @@ BUDGET = {
 FAULT_KINDS = ["negcount"]
 TIME_UNIT = "logical steps (one chained operation or one next() on a live handle); the component has no clock"
 RULE = (
-    "one run = a generated document + query giving a real lazy match sequence (length 0-8) and a history of up to 25 "
+    "one run = a generated document + query giving a real lazy match sequence (length 0-8, in 3 % of runs several hundred) and a history of up to 25 "
     "Query operations; the seeded scheduler picks which live handle each operation applies to. Non-trivial: at least "
     "3 operations executed, source length >= 2 and at least two live handles were operated on alternately; distinct by "
     "event-log digest."
@@ -71,7 +71,12 @@ def generate(seed: int, config: str, tier: str) -> Dict[str, Any]:
     want = rng.choice([0, 1, 2, 3, 4, 5, 6, 7, 8] + ([9, 10, 12] if deep else []))
     doc: Any = None
     query = "$[*]"
-    if rng.random() < 0.5:
+    if rng.random() < 0.03:
+        # now and then a long match sequence (hundreds of matches), with counts around it
+        want = rng.choice([257, 300, 513])
+        doc = [rng.choice([0, 1, "a", None, [], {}]) if i % 7 else i for i in range(want)]
+        query = "$[*]"
+    elif rng.random() < 0.5:
         doc = [gen_json.gen_value(rng, prof, 1) for _ in range(want)]
         query = rng.choice(["$[*]", "$.*", "$[0:]", "$[::1]", "$[*]"])
     else:
@@ -110,9 +115,9 @@ def generate(seed: int, config: str, tier: str) -> Dict[str, Any]:
     for _ in range(n_ops):
         kind = rng.choice(kinds)
         if kind == "tee":
-            n = rng.choice([-1] if rng.random() < p_neg else [0, 1, 2, 2, 2, 3])
+            n = rng.choice([-1] if rng.random() < p_neg else [0, 1, 2, 2, 2, 3, 3, 4, 5])
         elif kind in LIMIT_OPS + SKIP_OPS + TAIL_OPS + ["take"]:
-            n = -1 if rng.random() < p_neg else rng.randint(0, L + 2)
+            n = -1 if rng.random() < p_neg else (rng.randint(0, L + 2) if L <= 20 or rng.random() < 0.5 else rng.choice([255, 256, 257, L - 1, L, L + 1]))
         else:
             n = 0
         # a view may be consumed lazily, one element at a time, interleaved with operations on other handles
